@@ -66,7 +66,10 @@ class WireGen:
         # maybe descend
         nested = [i for i, r in enumerate(recs) if r.wt == spec.WT_LEN and r.number in fields
                   and _sub_info(self.b, fields[r.number]) is not None
-                  and not (fields[r.number].label == "repeated" and fields[r.number].kind != "message")]
+                  and not (fields[r.number].label == "repeated" and fields[r.number].kind != "message")
+                  # upb keeps a map entry that contains unknown fields as an unknown field of the parent
+                  # (implementation-specific, not in the spec): never put unknown records inside map entries
+                  and not (op == "unknown_interleave" and fields[r.number].label == "map")]
         if nested and depth < 4 and rng.random() < 0.4:
             i = rng.choice(nested)
             r = recs[i]
